@@ -406,3 +406,104 @@ func (w *World) mayStoreKey(fn *ssa.Function, g *ssa.Global, seen map[*ssa.Funct
 	}
 	return false
 }
+
+// ---- C09-W (also C01) ----------------------------------------------------------------------------------------
+
+// ruleBlockStateOwner: per-block state that records which node it belongs to is cleared only by that node's Close.
+func ruleBlockStateOwner(w *World, r *Report) {
+	r.Rule("C09-W", "When a block parser's Open stores, under a per-block context key, a record that contains the node it returns (the record names its owner), a second block of the same kind may open — and overwrite the record — before the first one is closed (an unclosed fence inside a block quote, followed by a line that leaves the quote and opens a new fence). In that parser's Close(node) every reset of the key (Set(K, nil)) is therefore dominated by an equality test between the node recorded in the value read back (pc.Get(K)) and Close's own node parameter. An unconditional reset wipes the newer block's record, and its Continue then asserts on nil (a panic) or reads another block's state.")
+	it := w.Iface("parser", "BlockParser")
+	n := 0
+	for _, t := range w.Implementers(it) {
+		open, cl := w.MethodOf(t, "Open"), w.MethodOf(t, "Close")
+		if open == nil || cl == nil || !w.InModule(open) || !w.InModule(cl) || len(cl.Params) < 2 {
+			continue
+		}
+		// keys whose stored record contains a node returned by Open
+		owned := map[*ssa.Global]bool{}
+		returned := map[ssa.Value]bool{}
+		for _, b := range open.Blocks {
+			if ret, ok := b.Instrs[len(b.Instrs)-1].(*ssa.Return); ok && len(ret.Results) > 0 {
+				for _, leaf := range phiLeaves(ret.Results[0]) {
+					if !isNilConst(leaf) {
+						returned[leaf] = true
+						returned[stripMakeIface(leaf)] = true
+					}
+				}
+			}
+		}
+		for _, b := range open.Blocks {
+			for _, ins := range b.Instrs {
+				c, ok := ins.(ssa.CallInstruction)
+				if !ok {
+					continue
+				}
+				g, op := ctxKeyOf(c)
+				if g == nil || op != "Set" {
+					continue
+				}
+				al, ok := stripMakeIface(c.Common().Args[1]).(*ssa.Alloc)
+				if !ok {
+					continue
+				}
+				for _, ref := range referrersOf(al) {
+					fa, ok := ref.(*ssa.FieldAddr)
+					if !ok {
+						continue
+					}
+					for _, r2 := range referrersOf(fa) {
+						if st, ok := r2.(*ssa.Store); ok && (returned[st.Val] || returned[stripMakeIface(st.Val)]) {
+							owned[g] = true
+						}
+					}
+				}
+			}
+		}
+		nodeP := cl.Params[1]
+		for g := range owned {
+			for _, b := range cl.Blocks {
+				for _, ins := range b.Instrs {
+					c, ok := ins.(ssa.CallInstruction)
+					if !ok {
+						continue
+					}
+					if g2, op := ctxKeyOf(c); g2 != g || op != "Set" || !isNilConst(stripMakeIface(c.Common().Args[1])) {
+						continue
+					}
+					n++
+					key := fmt.Sprintf("%s.Close resets %s only for its own node", typeShort(t), g.Name())
+					ok2 := false
+					for _, cf := range dominatingConds(b) {
+						bo, isB := cf.If.Cond.(*ssa.BinOp)
+						if !isB || !((bo.Op == token.EQL && cf.Truth) || (bo.Op == token.NEQ && !cf.Truth)) {
+							continue
+						}
+						for _, pr := range [][2]ssa.Value{{bo.X, bo.Y}, {bo.Y, bo.X}} {
+							if stripMakeIface(pr[0]) != ssa.Value(nodeP) {
+								continue
+							}
+							fromGet := false
+							operandsClosure(pr[1], func(v ssa.Value) bool {
+								if cc, isC := v.(*ssa.Call); isC {
+									if g3, op3 := ctxKeyOf(cc); g3 == g && op3 == "Get" {
+										fromGet = true
+									}
+								}
+								return !fromGet
+							})
+							if fromGet {
+								ok2 = true
+							}
+						}
+					}
+					if ok2 {
+						r.OK(key, w.InstrPos(ins), "the reset is dominated by `recorded node == node`")
+					} else {
+						r.Bad(key, w.InstrPos(ins), "the record is cleared without checking that it belongs to the block being closed: a block of the same kind opened in the meantime loses its state")
+					}
+				}
+			}
+		}
+	}
+	r.Expect("resets of owner-recording per-block state", n, 1)
+}
